@@ -638,15 +638,15 @@ func runC09(c *Ctx) {
 			}
 			good := false
 			for _, a := range storesTo(fn, wi) {
-				bo, ok := stripConv(a.Val).(*ssa.BinOp)
-				if !ok || bo.Op != token.ADD || !loadOfField(bo.X, wi) || appended == nil {
+				amountV, ok := incrementOf(a.Val, wi)
+				if !ok || appended == nil {
 					continue
 				}
 				if name == "WriteByte" {
-					good = isConstInt(bo.Y, 1)
+					good = isConstInt(amountV, 1)
 					continue
 				}
-				if call, ok := stripConv(bo.Y).(*ssa.Call); ok {
+				if call, ok := stripConv(amountV).(*ssa.Call); ok {
 					if b, ok := call.Call.Value.(*ssa.Builtin); ok && b.Name() == "len" {
 						arg := stripConv(call.Call.Args[0])
 						// append(data, bb...) / append(data, s...): the operand itself, or its conversion to []byte
@@ -662,11 +662,11 @@ func runC09(c *Ctx) {
 		for _, name := range []string{"Claim", "ClaimFixed"} {
 			fn := m(name)
 			for _, a := range storesTo(fn, wi) {
-				bo, ok := stripConv(a.Val).(*ssa.BinOp)
-				if !ok || bo.Op != token.ADD || !loadOfField(bo.X, wi) {
+				amountV, ok := incrementOf(a.Val, wi)
+				if !ok {
 					continue
 				}
-				amt := exprString(bo.Y, nil, 0)
+				amt := exprString(amountV, nil, 0)
 				gs := guardSet(a.Instr.Block())
 				good := (gs[cmpString(token.LEQ, amt, "(cap(data)-wi)")] || gs[cmpString(token.LEQ, "("+sortedSum(amt, "wi")+")", "cap(data)")]) && (gs[cmpString(token.GEQ, amt, "0")] || gs[cmpString(token.GTR, amt, "-1")])
 				c.check(good, fn, "claim bound", a.Instr.Pos(), "0 <= n <= cap(data) - wi", fmt.Sprintf("%s advances wi by %s without the exact bound 0 <= n <= cap(data)-wi (guards: %v): a claim one byte too large slices past the capacity (panic) or moves wi beyond the storage", name, amt, keysOf(gs)))
